@@ -166,6 +166,11 @@ def property_fails_on(op, impl):
         bad = notify_oracle(f, status, notes)
         if bad:
             return bad
+    if m not in ("GET", "POST", "PUT", "DELETE") and (reqs != "-" or notes != "-" or cfgw != "0"):
+        return "%s /%s (a method no route is registered under) had an effect: upstream %s, notifications %s, config written %s" % (
+            m, "/".join(segs), reqs, notes, cfgw)
+    if under_api and m != "GET" and not is_admin(f) and (reqs != "-" or notes != "-"):
+        return "%s /%s without an admin identity reached an upstream (status %d): %s %s" % (m, "/".join(segs), status, reqs, notes)
     if segs and segs[0] == "config" and f.get("cidr") == "1":
         out = f.get("innet") == "0" or f.get("lfail", "-") != "-" and "6e65742e53706c6974486f7374506f7274" in f["lfail"] \
             or "6970203d3d206e696c" in f.get("other", "")
